@@ -81,6 +81,16 @@ def run(tier, seed):
     cases = model_cases(wd, res)
     n_model = len(cases)
     cases += random_cases(200 if tier == "quick" else 5000, seed)
+    # the same histories over the real TCP and WebSocket servers (sessions = sockets, disconnect = the
+    # server's own end-of-stream / on_close code); all of them in the thorough tier, a sample otherwise
+    rnd = random.Random(seed)
+    net = []
+    for t in ("tcp", "ws"):
+        sel = cases if tier != "quick" else rnd.sample(cases[:n_model], min(n_model, 60)) + cases[n_model:n_model + 25]
+        if tier != "quick":
+            sel = cases[:n_model] + cases[n_model:n_model + 400]
+        net += [dict(c, id="%s_%s" % (t, c["id"]), transport=t) for c in sel]
+    cases += net
     by_id = {c["id"]: c for c in cases}
     raws = common.run_cases_parallel("seq", cases, wd)
     norm_path = os.path.join(wd, "norm.ndjson")
@@ -89,7 +99,8 @@ def run(tier, seed):
                                wd, by_id)
     res.coverage.update({
         "traces_validated_against_impl": out["runs"], "events_validated": out["events"],
-        "model_generated_cases": n_model, "random_cases": len(cases) - n_model,
+        "model_generated_cases": n_model, "random_cases": len(cases) - n_model - len(net),
+        "cases_over_tcp_and_websocket": len(net),
         "samples": [[s.get("line", "close " + str(s.get("close"))) for s in cases[n_model // 2]["steps"]]],
         "exhaustive": True,
         "rule": "MC_Conn: every (selection of 3 sessions over 2 databases, counter state) x "
@@ -97,7 +108,8 @@ def run(tier, seed):
                 "database's connection counter and the $connections key must equal the number of "
                 "open sessions selecting it, and the $connections watcher is told of every change",
     })
-    res.assumptions = ["disconnect = what every transport runs at connection end "
-                       "(process_request(\"unwatch-all\") + Client::left); the transports' own "
-                       "disconnect paths are exercised by the real-transport runs of C20/C10"]
+    res.assumptions = ["three ways of driving the sessions: process_request directly with the transports' common "
+                       "end-of-connection code (unwatch-all + Client::left), the real TCP server and the real "
+                       "WebSocket server on loopback sockets (HTTP requests: C20)",
+                       "over sockets the harness waits until the node's projection is stable for 40 ms after each step"]
     return res, known
